@@ -107,6 +107,14 @@ pub fn dispatch(ctx: &Ctx, rep: &mut Report) {
             }
         },
         "C13" => c13fm::run(ctx, rep),
+        "C14" => {
+            if fm {
+                crate::onfm::c14::run(ctx, rep);
+            }
+            if ris {
+                crate::onris::c14::run(ctx, rep);
+            }
+        },
         other => {
             eprintln!("unknown check {other}");
             std::process::exit(3);
